@@ -19,10 +19,10 @@ EXTENDS Emit
 (* sizes beyond the small grid: loops unrolled or special-cased for a size show only here *)
 Big == {<<5>>, <<7>>, <<4, 5>>, <<5, 1>>, <<1, 6>>, <<2, 4, 3>>, <<4, 1, 2, 5>>}
 Grid == (IF Thorough THEN Shapes(3, 3) \cup Shapes(5, 2)
-         ELSE Shapes(2, 2) \cup {<<3>>, <<2, 3>>, <<3, 1>>, <<2, 1, 2>>, <<1, 2, 1, 2, 2>>}) \cup {<<5>>, <<4, 5>>, <<2, 4, 3>>}
+         ELSE Shapes(2, 2) \cup {<<3>>, <<2, 3>>, <<3, 1>>, <<2, 1, 2>>, <<1, 2, 1, 2, 2>>}) \cup {<<5>>, <<4, 5>>, <<2, 4, 3>>, <<9, 2>>, <<2, 11>>, <<17>>}
 GridSeq == SetToSeq(Grid)
 EGrid == IF Thorough THEN SetToSeq(Shapes(3, 2) \cup {<<3>>, <<2, 3>>, <<1, 2, 1, 2, 2>>})
-         ELSE <<<<>>, <<3>>, <<2, 2>>, <<1, 2, 1, 2, 2>>, <<7>>, <<4, 5>>>>          \* element-wise operations: index logic is trivial
+         ELSE <<<<>>, <<3>>, <<2, 2>>, <<1, 2, 1, 2, 2>>, <<7>>, <<4, 5>>, <<17>>, <<18, 2>>>>          \* element-wise operations: index logic is trivial
 
 PowKs == <<QI(-2), QI(-1), Zero, One, Two, QI(3), Half>>
 ScaleKs == <<Two, Q(-1, 2), Zero, One>>
@@ -47,7 +47,7 @@ BinDescs == Flatten2([i \in DOMAIN EGrid |-> Flatten2([f \in DOMAIN BinOps |->
 DotShapes == SetToSeq({g \in Grid : Len(g) >= 1})
 DotDescs == Flatten2([i \in DOMAIN DotShapes |-> [t \in 1..3 |-> <<"b", "dot", DotShapes[i], DotShapes[i], Subsets2[t]>>]])
 MMBatch == IF Thorough THEN SetToSeq(Shapes(3, 2)) ELSE <<<<>>, <<2>>, <<1, 2>>, <<2, 1, 2>>>>
-MNK == IF Thorough THEN SetToSeq((1..3) \X (1..3) \X (1..3)) ELSE <<<<1, 1, 1>>, <<2, 3, 2>>, <<3, 1, 2>>, <<1, 2, 3>>, <<2, 2, 1>>, <<4, 5, 4>>, <<5, 1, 6>>>>
+MNK == IF Thorough THEN SetToSeq((1..3) \X (1..3) \X (1..3)) ELSE <<<<1, 1, 1>>, <<2, 3, 2>>, <<3, 1, 2>>, <<1, 2, 3>>, <<2, 2, 1>>, <<4, 5, 4>>, <<5, 1, 6>>, <<3, 10, 2>>, <<9, 9, 2>>>>
 MMDescs == Flatten2([i \in DOMAIN MMBatch |-> Flatten2([j \in DOMAIN MNK |->
               [t \in 1..3 |-> <<"b", "matmul", MMBatch[i] \o <<MNK[j][1], MNK[j][2]>>, MMBatch[i] \o <<MNK[j][2], MNK[j][3]>>, Subsets2[t]>>]])])
 
@@ -100,8 +100,9 @@ WithG(name, ins, doms, op, par, ydims) ==
 YDims(op, par, dimsSeq) == OpApply(op, par, [k \in DOMAIN dimsSeq |-> SymT("t", dimsSeq[k])]).dims
 
 BDom(op) == CASE op = "div" -> <<"any", "nz">>
+              [] op \in {"elmax", "elmin"} -> <<"any,any,any,tinyd", "any,nearcopy,any,zero">>       \* also: next to a tie, where the operation is still differentiable
               [] OTHER -> <<"any", "any">>
-ADom(op) == IF op \in {"maxalong", "minalong", "stdalong"} THEN "distinct" ELSE "any,distinct"
+ADom(op) == IF op \in {"maxalong", "minalong"} THEN "distinct,nearequal,tinyd" ELSE IF op = "stdalong" THEN "distinct" ELSE "any,distinct"
 
 Build(d) ==
   CASE d[1] = "u" -> WithG(d[2], <<In("a", d[3], TRUE)>>, <<UDom(d[2], d[4])>>, d[2], [k |-> d[4]], d[3])
